@@ -48,9 +48,9 @@ func v2Total() int {
 
 func init() {
 	register(&Check{ID: "C05", Run: runC05, Expl: oblig.Explanation{
-		Text: "Static layout/sibling check of the four record-batch implementations. (R1) reflective writer writeToVersion2: the fixed-width header writes have the widths of the Kafka v2 batch header (61 bytes), every placeholder is back-patched exactly once at its own offset with a value of the right width and the right kind (record counter → numRecords, index copy → lastOffsetDelta, first/max timestamp), the CRC scan starts at the attributes offset with the Castagnoli table, batchLength = total − 12; writeToVersion1: offset/size/crc placeholders, size = end − (start+12), IEEE CRC enabled after the crc field; the readers readFromVersion2/readMessage read the same width sequence and enable the same table at the same position. (R2) legacy writer: recordBatchHeaderSize = header bytes of writeRecordBatch, recordSize ≡ bytes of writeRecord after its length varint, record batch size ≡ bytes of recordBatch.writeTo, messageSize ≡ bytes of writeMessage after the size field (symbolic byte algebra). (R3) the CRC dry run emits the same field sequence as the real write. (R4) CRC comparison dominates the exposure of decoded records. (R5) control batches are wrapped and skipped. (R7) null keys/values stay null on the write side. (R8) records are emitted in index order. Not decided: byte-level equality with an independent decoder for every record list, compression round trips, concurrent page recycling.",
-		Rule: "one obligation per layout fact / sibling pair / size identity; non-trivial = at least one instruction or AST node inspected",
-		Trusted: []string{"go/ssa, go/types", "hand-written v2 header layout table and v0/v1 message layout", "symbolic interpreter (internal/an/bytealg.go)"},
+		Text:        "Static layout/sibling check of the four record-batch implementations. (R1) reflective writer writeToVersion2: the fixed-width header writes have the widths of the Kafka v2 batch header (61 bytes), every placeholder is back-patched exactly once at its own offset with a value of the right width and the right kind (record counter → numRecords, index copy → lastOffsetDelta, first/max timestamp), the CRC scan starts at the attributes offset with the Castagnoli table, batchLength = total − 12; writeToVersion1: offset/size/crc placeholders, size = end − (start+12), IEEE CRC enabled after the crc field; the readers readFromVersion2/readMessage read the same width sequence and enable the same table at the same position. (R2) legacy writer: recordBatchHeaderSize = header bytes of writeRecordBatch, recordSize ≡ bytes of writeRecord after its length varint, record batch size ≡ bytes of recordBatch.writeTo, messageSize ≡ bytes of writeMessage after the size field (symbolic byte algebra). (R3) the CRC dry run emits the same field sequence as the real write. (R4) CRC comparison dominates the exposure of decoded records. (R5) control batches are wrapped and skipped. (R7) null keys/values stay null on the write side. (R8) records are emitted in index order. Not decided: byte-level equality with an independent decoder for every record list, compression round trips, concurrent page recycling.",
+		Rule:        "one obligation per layout fact / sibling pair / size identity; non-trivial = at least one instruction or AST node inspected",
+		Trusted:     []string{"go/ssa, go/types", "hand-written v2 header layout table and v0/v1 message layout", "symbolic interpreter (internal/an/bytealg.go)"},
 		Assumptions: []string{"the Kafka v2 batch header is 8,4,4,1,4,2,4,8,8,8,2,4,4 bytes with the CRC covering attributes..end"},
 	}})
 }
@@ -216,7 +216,7 @@ func c05WriterV2(p *load.Program, r *oblig.Report) {
 			return
 		}
 		f := c.Call.StaticCallee()
-		if f == nil || f.Name() != "scan" || len(c.Call.Args) < 3 {
+		if f == nil || an.RefFuncName(f) != "scan" || len(c.Call.Args) < 3 {
 			return
 		}
 		so := an.Origins(c.Call.Args[1], an.FlowOpts{})
@@ -301,7 +301,7 @@ func valueRole(fn *ssa.Function, v ssa.Value) string {
 	for _, cl := range fn.AnonFuncs {
 		// free variable bound to cell
 		var fv *ssa.FreeVar
-		for _, blk := range fn.Blocks {
+		for _, blk := range an.Blocks(fn) {
 			for _, ins := range blk.Instrs {
 				if mc, ok := ins.(*ssa.MakeClosure); ok && mc.Fn == ssa.Value(cl) {
 					for i, b := range mc.Bindings {
@@ -333,7 +333,7 @@ func valueRole(fn *ssa.Function, v ssa.Value) string {
 				roles["index-copy"] = true
 				return
 			case *ssa.Call:
-				if f := x.Call.StaticCallee(); f != nil && f.Name() == "Update" {
+				if f := x.Call.StaticCallee(); f != nil && an.RefFuncName(f) == "Update" {
 					roles["checksum"] = true
 					return
 				}
@@ -429,7 +429,7 @@ func c05WriterV1(p *load.Program, r *oblig.Report) {
 		if !ok {
 			return
 		}
-		if f := c.Call.StaticCallee(); f != nil && f.Name() == "packUint32" {
+		if f := c.Call.StaticCallee(); f != nil && an.RefFuncName(f) == "packUint32" {
 			v := an.Unwrap(c.Call.Args[0])
 			if bo, ok := v.(*ssa.BinOp); ok && bo.Op == token.SUB {
 				d := argDesc(bo.Y)
@@ -723,7 +723,7 @@ func c05CRCDominates(p *load.Program, r *oblig.Report) {
 	if fn != nil {
 		// the comparison dec.crc32 != uint32(crc)
 		var cmpBlock *ssa.BasicBlock
-		for _, b := range fn.Blocks {
+		for _, b := range an.Blocks(fn) {
 			_, ci := an.IfCond(b)
 			if ci == nil || ci.Op != token.NEQ {
 				continue
@@ -772,14 +772,14 @@ func c05CRCDominates(p *load.Program, r *oblig.Report) {
 	}
 	// readMessage: on the crc mismatch edge the returned err is a fresh error
 	okMismatch := false
-	for _, b := range rm.Blocks {
+	for _, b := range an.Blocks(rm) {
 		_, ci := an.IfCond(b)
 		if ci == nil || ci.Op != token.NEQ || !(strings.Contains(argDesc(ci.X), ".crc32") || strings.Contains(argDesc(ci.Y), ".crc32")) {
 			continue
 		}
 		for _, ins := range b.Succs[0].Instrs {
 			if c, ok := ins.(*ssa.Call); ok {
-				if f := c.Call.StaticCallee(); f != nil && (f.Name() == "Errorf" || f.Name() == "New") {
+				if f := c.Call.StaticCallee(); f != nil && (an.RefFuncName(f) == "Errorf" || an.RefFuncName(f) == "New") {
 					okMismatch = true
 				}
 			}
@@ -849,13 +849,13 @@ func c05Control(p *load.Program, r *oblig.Report) {
 		return
 	}
 	okWrap := false
-	for _, b := range fn2.Blocks {
+	for _, b := range an.Blocks(fn2) {
 		iff, _ := an.IfCond(b)
 		if iff == nil {
 			continue
 		}
-		c, ok := iff.Cond.(*ssa.Call)
-		if !ok || c.Call.StaticCallee() == nil || c.Call.StaticCallee().Name() != "Control" {
+		c, ok := an.CondOf(iff).(*ssa.Call)
+		if !ok || c.Call.StaticCallee() == nil || an.RefFuncName(c.Call.StaticCallee()) != "Control" {
 			continue
 		}
 		hasCB := func(bb *ssa.BasicBlock, name string) bool {
@@ -931,7 +931,7 @@ func c05NullAndOrder(p *load.Program, r *oblig.Report) {
 		_, ci := an.IfCond(f.Blocks[0])
 		ok := false
 		if ci != nil && an.IsNilConst(ci.Y) && ci.Op == token.EQL {
-			for _, ins := range f.Blocks[0].Succs[0].Instrs {
+			for _, ins := range an.Blocks(f)[0].Succs[0].Instrs {
 				if c, isC := ins.(*ssa.Call); isC && len(c.Call.Args) > 1 {
 					if v, isK := an.ConstInt(an.Unwrap(c.Call.Args[1])); isK && v == -1 {
 						ok = true
@@ -1042,8 +1042,8 @@ func c05PageRefs(p *load.Program, r *oblig.Report) {
 		var casBlock *ssa.BasicBlock
 		an.EachInstr(pu, func(ins ssa.Instruction) {
 			if c, ok := ins.(*ssa.Call); ok {
-				if f := c.Call.StaticCallee(); f != nil && f.Name() == "CompareAndSwapUint32" {
-					if iff, _ := an.IfCond(c.Block()); iff != nil && iff.Cond == ssa.Value(c) {
+				if f := c.Call.StaticCallee(); f != nil && an.RefFuncName(f) == "CompareAndSwapUint32" {
+					if iff, _ := an.IfCond(c.Block()); iff != nil && an.CondOf(iff) == ssa.Value(c) {
 						casBlock = c.Block()
 					}
 				}
@@ -1110,7 +1110,7 @@ func c05PageRefs(p *load.Program, r *oblig.Report) {
 			return
 		}
 		if c, ok := an.ConstInt(bo.Y); ok && c == 0 {
-			if call, ok := bo.X.(*ssa.Call); ok && call.Call.StaticCallee() != nil && call.Call.StaticCallee().Name() == "AddUintptr" {
+			if call, ok := bo.X.(*ssa.Call); ok && call.Call.StaticCallee() != nil && an.RefFuncName(call.Call.StaticCallee()) == "AddUintptr" {
 				okZero = true
 			}
 		}
